@@ -66,6 +66,10 @@ let judges : (string * (sx -> verdict)) list = [
   "C04", judge_C04;
   "C09", judge_C09;
   "C10", judge_C10;
+  "C06", judge_C06;
+  "C07", judge_C07;
+  "C08", judge_C08;
+  "C08s", judge_C08s;
   "C14", judge_C14;
   "C15", judge_C15;
 ]
